@@ -498,6 +498,8 @@ def eval_case(ctx: Ctx, c: dict):
     elif k == "zone.text":
         t = c["text"]
         kw = {"origin": "example." if c.get("origin") else None, "relativize": bool(c.get("relativize")), "check_origin": bool(c.get("check_origin")), "allow_include": False}
+        if c.get("filename"):
+            kw["filename"] = c["filename"]
         cls, z, e = guarded(lambda: dns.zone.from_text(t, **kw), zone_level=True)
         entry = "zone.from_text"
         if cls == "HANG" or cls == "FOREIGN:MemoryError":
@@ -518,6 +520,15 @@ def eval_case(ctx: Ctx, c: dict):
                 ctx.fail("C04/zone.from_text/syntax-error-without-file-and-line", f"zone.from_text({t!r}) raised a syntax error without file:line: {e!r}", rep)
             else:
                 ctx.count("zone.from_text.syntax-with-file-line")
+                if c.get("badline") is not None:
+                    # exactly one bad single-line record among valid single-line records: that line is reported
+                    # (an error noticed only when the end of the line has been consumed carries the next line's
+                    # number: the tokenizer has already counted the newline; both are accepted)
+                    fn = c.get('filename') or '<string>'
+                    if not (str(e).startswith(f"{fn}:{c['badline']}: ") or str(e).startswith(f"{fn}:{c['badline'] + 1}: ")):
+                        ctx.fail("C04/zone.from_text/wrong-file-or-line", f"zone.from_text({t!r}): the only bad line is {c['badline']}, reported {str(e)[:60]!r}", rep)
+                    else:
+                        ctx.count("zone.from_text.line-number-checked")
         if z is not None:
             c1, _, e1 = guarded(lambda: z.to_text(), zone_level=True)
             report(ctx, "zone.to_text", c1, rep, f"to_text of zone parsed from {t!r} raised {e1!r}")
@@ -763,6 +774,22 @@ def generate(ctx: Ctx, scale: int, rng):
             c2 = {"kind": "rrsets.text", "text": t, "origin": rng.below(2), "relativize": rng.below(2), "name": rng.choice([None, "n", "n.example."]), "default_ttl": rng.choice([None, 300])}
             ctx.case(("rs", t, str(c2)))
             eval_case(ctx, c2)
+    BAD_LINES = ["x IN NOSUCHTYPE 1", "x IN A 999.1.1.1", "x IN A", "x 300 IN MX ten mail", "x IN AAAA 1.2.3.4", "x IN TXT \"unterminated",
+                 "$TTL", "$TTL abc", "$ORIGIN", "$NOSUCH foo", "x IN SOA a. b. 1 2 3 4", "\\300 IN A 1.2.3.4", "x..y IN A 1.2.3.4",
+                 "x IN A 1.2.3.4 extra", "x 99999999999 IN A 1.2.3.4", "$GENERATE 1-3 a$ NOSUCHTYPE x", "$GENERATE 3-1 a$ A 1.2.3.4",
+                 "x IN NSEC . TYPE99999", ") x IN A 1.2.3.4", "x IN CAA 0 issue", "x IN LOC 91 0 0 N 0 0 0 E 0"]
+    for _ in range(n(400)):
+        k = rng.range(1, 8)
+        bad = rng.below(k)
+        lines = [f"n{i} {rng.choice(['', '300', '1h'])} IN A 10.0.0.{i}" if rng.chance(3, 4) else f"n{i} IN TXT \"t {i}\" ; comment" for i in range(k)]
+        lines[bad] = rng.choice(BAD_LINES)
+        head = ["$TTL 300", "@ IN SOA ns. admin. 1 2 3 4 5"] if rng.chance(2, 3) else ["@ 300 IN SOA ns. admin. 1 2 3 4 5"]
+        blank = [""] * rng.below(3)
+        t = "\n".join(blank + head + lines) + "\n"
+        c = {"kind": "zone.text", "text": t, "origin": 1, "relativize": rng.below(2), "check_origin": rng.below(2),
+             "badline": len(blank) + len(head) + bad + 1, "filename": rng.choice([None, None, "db.example", "dir/zone file.txt"])}
+        ctx.case(("zl", t, c["relativize"], c["check_origin"], c["filename"]), sample=c if len(t) < 200 else None)
+        eval_case(ctx, c)
     for _ in range(n(500)):
         base = build_message(rng)
         try:
